@@ -9,6 +9,7 @@ EXPLANATION = (
     "(csr::decode_segment) reads, with the same page-list base offset; (2) reachability marks every page list a segment owns (as many `*_page_count` "
     "lists as the owner's decoder reads) and vacuum selects WAL roots with the same epoch comparisons as recovery (scan_wal_roots ~ scan_recovery_state); "
     "(3) PATH — the copy is synced before the original is renamed away, and target->backup precedes tmp->target. Logical equality of content is not decided."
+    " C28.6 = C18.3: the B-tree reachability walk follows every pointer an internal page stores."
 )
 
 V = "nervusdb_storage::vacuum::"
